@@ -498,6 +498,9 @@ class HistogramBase(abc.ABC):
         # TODO: remove in favour of adaptive property
         if not all(b.adaptive_allowed for b in self._binnings):
             raise ValueError("All binnings must allow adaptive behaviour.")
+        if value and any(b.includes_right_edge for b in self._binnings):
+            # Before any axis is switched
+            raise ValueError("Adaptivity does not work together with right-edge inclusion.")
         for binning in self._binnings:
             binning.set_adaptive(value)
 
